@@ -305,14 +305,23 @@ def _nodes(draw, depth, clean, xhtml, budget):
         elif budget[1] > 0 and draw(st.integers(0, 2)) == 0:
             budget[1] = 0
             items.append({'raise': 1})
-    return {'n': name, 'a': [[k, attrs[k]] for k in attrs], 'c': items, 'none': draw(st.booleans())}
+    node = {'n': name, 'a': [[k, attrs[k]] for k in attrs], 'c': items, 'none': draw(st.booleans())}
+    if depth >= 2 and len(budget) > 2 and budget[2] > 0 and draw(st.integers(0, 3)) == 0 and not any('raise' in it for it in items):
+        # a keep-going writer: something raises inside this element (directly, or inside one of its children), the caller
+        # catches it around the element's `with` block and goes on writing the siblings
+        budget[2] -= 1
+        kids = [it for it in items if 'n' in it and not it.get('catch') and not any('raise' in c or 'raise_c' in c for c in it['c'])]
+        target = draw(st.sampled_from(kids))['c'] if kids and draw(st.booleans()) else items
+        target.insert(draw(st.integers(0, len(target))), {'raise_c': 1})
+        node['catch'] = True
+    return node
 
 
 @st.composite
 def writer_cases(draw):
     xhtml = draw(st.booleans())
     clean = draw(st.integers(0, 9)) >= 3
-    budget = [draw(st.sampled_from((2, 6, 12, 20))), 1 if draw(st.integers(0, 3)) == 0 else 0]
+    budget = [draw(st.sampled_from((2, 6, 12, 20))), 1 if draw(st.integers(0, 3)) == 0 else 0, draw(st.sampled_from((0, 0, 1, 2)))]
     if xhtml:
         n = draw(st.integers(0, 3))
         body = [draw(_nodes(2, clean, True, budget)) for _ in range(n)]
@@ -329,13 +338,24 @@ class _Boom(Exception):
     """Raised by the harness inside nested elements ("the writer's caller raised midway")."""
 
 
+class _Caught(Exception):
+    """Raised by the harness inside an element and caught by the harness around that element (a keep-going loop)."""
+
+
 def _write_items(XmlWrite, xs, items, literals):
     for it in items:
         if 'n' in it:
             attrs = {k: v for k, v in it['a']}
             arg = None if (not attrs and it.get('none')) else attrs
-            with XmlWrite.Element(xs, it['n'], arg):
-                _write_items(XmlWrite, xs, it['c'], literals)
+            if it.get('catch'):
+                try:
+                    with XmlWrite.Element(xs, it['n'], arg):
+                        _write_items(XmlWrite, xs, it['c'], literals)
+                except _Caught:
+                    pass
+            else:
+                with XmlWrite.Element(xs, it['n'], arg):
+                    _write_items(XmlWrite, xs, it['c'], literals)
         elif 't' in it:
             xs.characters(it['t'])
         elif 'br' in it:
@@ -346,6 +366,8 @@ def _write_items(XmlWrite, xs, items, literals):
             xs.xmlSpacePreserve()
         elif 'raise' in it:
             raise _Boom()
+        elif 'raise_c' in it:
+            raise _Caught()
 
 
 def write_tree(case):
@@ -378,12 +400,16 @@ def _expected_content(items, ns, literals, state):
     """The model: what a parser has to see.  Content = list of str (user text) and element dicts."""
     content = []
     for it in items:
-        if state['stop']:
+        if state['stop'] or state.get('unwinding'):
             break
         if 'n' in it:
             node = {'tag': ns + it['n'], 'attrs': {k: v for k, v in it['a']}, 'content': []}
             content.append(node)  # the start tag is out before anything inside can raise
             node['content'] = _expected_content(it['c'], ns, literals, state)
+            if it.get('catch') and not state['stop']:
+                state['unwinding'] = False      # caught around this element, which is closed like any other
+        elif 'raise_c' in it:
+            state['unwinding'] = True
         elif 't' in it:
             content.append(it['t'])
         elif 'br' in it:
@@ -513,6 +539,8 @@ def _case_strings(items, out, depth=1, stats=None):
             stats['lit'] = True
         elif 'raise' in it:
             stats['raise'] = True
+        elif 'raise_c' in it:
+            stats['caught'] = True
         elif 'sp' in it:
             stats['sp'] = True
 
@@ -535,6 +563,7 @@ def check_tree(case, cc):
     cc.cls('writer:charactersWithBr-with-LF', stats['br_lf'])
     cc.cls('writer:literal', stats['lit'])
     cc.cls('writer:raise-midway', stats['raise'])
+    cc.cls('writer:exception-caught-around-an-element', bool(stats.get('caught')))
     cc.cls('writer:xmlSpacePreserve', stats['sp'])
     cc.cls('writer:attr-tab-lf-cr', any(k == 'a' and any(c in s for c in '\t\n\r') for k, s in strings))
     cc.cls('writer:attr-markup', any(k == 'a' and any(c in s for c in MARKUP) for k, s in strings))
@@ -551,8 +580,10 @@ def check_tree(case, cc):
     except Exception as err:  # noqa
         cc.unexpected(err)
         return
-    if boom != stats['raise'] and not boom:
-        raise engine.HarnessError('the midway exception was not raised')
+    st_ = {'stop': False}
+    _expected_content(case['body'], '', LITERALS_XHTML if case['stream'] == 'xhtml' else LITERALS_XML, st_)
+    if boom != st_['stop']:
+        raise engine.HarnessError('the midway exception was %s' % ('not raised' if st_['stop'] else 'raised, the model says it is skipped'))
     cc.sample({'stream': case['stream'], 'document': _a(doc, 400)})
     root, bad = parse_document(doc)
     if bad is not None:
